@@ -1,4 +1,5 @@
 #include "DynamicMemoryWriter.h"
+#include "VerifTrace.h"
 #include <cstring>    // memcpy
 #include <limits>
 #include <stdexcept>
@@ -14,6 +15,7 @@ namespace OP2Utility::Stream
 
 	void DynamicMemoryWriter::WriteImplementation(const void* buffer, std::size_t size)
 	{
+		OP2UTILITY_VERIF_SCOPE("grow", "Write", size, 0);
 		auto streamSize = streamBuffer.size();
 		streamBuffer.resize(streamSize + size);
 		std::memcpy(streamBuffer.data() + streamSize, buffer, size);
@@ -31,6 +33,7 @@ namespace OP2Utility::Stream
 
 	void DynamicMemoryWriter::SeekForward(uint64_t offset)
 	{
+		OP2UTILITY_VERIF_SCOPE("grow", "SeekForward", offset, 0);
 		auto streamSize = streamBuffer.size();
 		if (offset > std::numeric_limits<SizeType>::max() - streamSize) {
 			throw std::runtime_error("Seek forward beyond stream size limit");
@@ -41,6 +44,7 @@ namespace OP2Utility::Stream
 
 	void DynamicMemoryWriter::SeekBackward(uint64_t offset)
 	{
+		OP2UTILITY_VERIF_SCOPE("grow", "SeekBackward", offset, 0);
 		auto streamSize = streamBuffer.size();
 		if (offset > streamSize) {
 			throw std::runtime_error("Seek backward before beginning of stream");
@@ -50,6 +54,7 @@ namespace OP2Utility::Stream
 
 	void DynamicMemoryWriter::Seek(uint64_t offset)
 	{
+		OP2UTILITY_VERIF_SCOPE("grow", "Seek", offset, 0);
 		streamBuffer.resize(static_cast<SizeType>(offset), 0);
 	}
 
